@@ -59,6 +59,12 @@ func VerifyPresignedV4Signature(root RootUserConfig, iam auth.IAMService, logger
 			// assertion about the body like with a signed request: it is
 			// compared at the end of the stream
 			hashPayload := ctx.Get("X-Amz-Content-Sha256")
+			if utils.IsStreamingPayload(hashPayload) {
+				// no chunk decoder is installed for a presigned request: a
+				// body that is declared chunk-encoded is refused rather
+				// than stored with its framing
+				return sendResponse(ctx, s3err.GetAPIError(s3err.ErrNotImplemented), logger, mm)
+			}
 			if hashPayload != "" && !utils.IsSpecialPayload(hashPayload) {
 				var err error
 				wrapBodyReader(ctx, func(r io.Reader) io.Reader {
